@@ -258,6 +258,21 @@ template <class G> G makeShape(int shape) {
         return g;
     }
     if (shape == 1) return G(3);
+    if (shape == 3) { // a graph with a LONG mutation history (counters, lazily maintained data, amortised clean-ups)
+        G g(4);
+        for (int round = 0; round < 12; ++round) {
+            add(g, round % 4, (round + 1) % 4, round);
+            add(g, (round + 2) % 4, round % 4, round + 1);
+            if constexpr (T::fam == WEIGHTED) { g.setEdgeWeight(round % 4, (round + 1) % 4, 0.25 * round); g.setEdgeWeight((round + 2) % 4, round % 4, 2.0); }
+            else if constexpr (T::fam == MULTI) { g.setEdgeMultiplicity(round % 4, (round + 1) % 4, 1 + round % 3); g.removeMultiedge((round + 2) % 4, round % 4, 1); }
+            else if constexpr (T::labelled) g.setEdgeLabel(round % 4, (round + 1) % 4, LabelAlpha<L>::value(1 + round % 2));
+            g.removeEdge((round + 2) % 4, round % 4);
+            if (round % 5 == 4) g.removeVertexFromEdgeList(round % 4);
+            if (round % 6 == 5) { g.removeSelfLoops(); g.removeDuplicateEdges(); }
+        }
+        add(g, 3, 3, 1); add(g, 1, 2, 2); add(g, 2, 1, 3);
+        return g;
+    }
     G g(3);
     add(g, 0, 1, 0); add(g, 1, 2, 1); add(g, 2, 0, 2); add(g, 1, 1, 3); add(g, 0, 2, 4);
     return g;
@@ -374,7 +389,7 @@ template <class G> struct Harness {
     }
 
     void all(bool coreOnly, int nThreads) {
-        for (int shape = 0; shape < 3; ++shape) {
+        for (int shape = 0; shape < 4; ++shape) {
             // baseline on ANOTHER, identically built object; never on the shared one
             G base = makeShape<G>(shape);
             std::vector<std::string> baseline;
